@@ -54,6 +54,7 @@ def main():
     ap.add_argument("--unit", action="append", help="restrict to these units (development)")
     ap.add_argument("--no-evidence", action="store_true")
     ap.add_argument("--all-units", action="store_true", help="also run units not yet listed in specs/registered.json (development)")
+    ap.add_argument("--fast-fail", action="store_true", help="skip the Kani units when a Verus unit already reports a violation (seed matrix)")
     a = ap.parse_args()
     prop = a.prop
     tier = a.tier if a.tier in ("quick", "thorough") else "quick"
@@ -100,6 +101,8 @@ def main():
             kunit_objs.append(kx.parse_kspec(p))
         except Exception as e:
             kres["<%s>" % os.path.basename(p)] = {"status": "undecided", "reason": "kspec %r" % e, "unit": os.path.basename(p), "level": "?"}
+    if a.fast_fail and any(r["status"] == "violation" for r in vres):
+        kunit_objs = []
     groups = {}
     for u in kunit_objs:
         groups.setdefault((u["dir"], " ".join(u["flags"])), []).append(u)    # units with different kani flags are never mixed
